@@ -38,14 +38,16 @@ def dammit(data, carrier, mode):
 
 def smart_quotes(ctx):
     cmds, cases = [], []
-    for carrier in CARRIERS:
+    for carrier, spelled in [(c, c) for c in CARRIERS] + [(c, v) for c in CARRIERS for v in (c.upper(), c.title())]:
         for mode in MODES:
             for b in range(0x80, 0xa0):
                 for ctxname, pre, post in (("alone", b"", b""), ("markup", b"<p>a", b"z</p>")):
+                    if spelled != carrier and ctxname != "alone":
+                        continue
                     data = pre + bytes([b]) + post
-                    got, enc = dammit(data, carrier, mode)
-                    case = {"byte": b, "mode": mode, "carrier": carrier, "context": ctxname}
-                    ctx.case(("sq", b, mode, carrier, ctxname))
+                    got, enc = dammit(data, spelled, mode)     # encoding names are case-insensitive
+                    case = {"byte": b, "mode": mode, "carrier": carrier, "context": ctxname, "spelled": spelled}
+                    ctx.case(("sq", b, mode, spelled, ctxname))
                     # ---- direct oracle (property wording)
                     ch = cp1252(b)
                     if mode is None:
@@ -197,7 +199,7 @@ def run(ctx):
 def replay(ctx, data):
     f = (data.get("failure") or {}).get("case") or {}
     if "byte" in f:
-        got, _ = dammit(bytes([f["byte"]]), f["carrier"], f["mode"])
+        got, _ = dammit(bytes([f["byte"]]), f.get("spelled", f["carrier"]), f["mode"])
         print("byte=%#x mode=%r carrier=%s -> %r ; cp1252 char %r" % (f["byte"], f["mode"], f["carrier"], got, cp1252(f["byte"])))
         return 1
     if "raw" in f:
